@@ -1,2 +1,5 @@
+pub mod bcf;
+pub mod bgzf;
+pub mod callset;
 pub mod shapes;
 pub mod values;
